@@ -15,26 +15,44 @@ PROP = dict(
         dict(fn="aw_transform.filter_keyvals.filter_keyvals", scope={"list": 4, "data": DATA, "strs": ["a", "b"], "jvs": [1, 2, [1, 2]]}),
         dict(fn="aw_transform.merge_events_by_keys.merge_events_by_keys", bounded_only=True, budget=1500,
              scope={"list": 4, "data": DATA_MERGE, "strs": ["a", "b", "c"]}),
-        dict(fn="aw_transform.chunk_events_by_key.chunk_events_by_key", bounded_only=True, budget=1500,
+        dict(fn="aw_transform.chunk_events_by_key.chunk_events_by_key", budget=1500,
              scope={"list": 4, "data": [{"a": 1}, {"a": 2}, {"a": 1, "b": 1}, {"a": [1]}], "strs": ["a"]}),
     ],
     scope={"list": 4, "grid": 6, "durs": [0, 1, 1, 2, 3], "data": DATA},
     timeout_s=20,
-    technique="contract-based deductive verification for sorting/limiting/filtering; run-time contract on the real function "
-              "(bounded) for merge_events_by_keys and chunk_events_by_key",
+    technique="contract-based deductive verification for sorting/limiting/filtering and for chunk_events_by_key (loop invariant with ghost "
+              "chunk boundaries and prefix sums); run-time contract on the real function (bounded) for merge_events_by_keys",
     explanation="Proved for all inputs: sort_by_timestamp / sort_by_duration return a fresh, correctly ordered permutation "
                 "(relative to the assumed contract A-STD of sorted()); limit_events returns a prefix; filter_keyvals returns exactly "
                 "the order-preserving sub-sequence of events whose predicate value differs from `exclude` (so the two polarities are "
-                "complementary); none of them modifies its input.  merge_events_by_keys (dict keyed by tuples) and "
-                "chunk_events_by_key (lists nested in event data) are outside the verified subset: their clauses are evaluated at "
-                "run time on the real functions over random small inputs (bounded, not counted as proved).",
+                "complementary); none of them modifies its input.  chunk_events_by_key, for every key-bearing sequence (every event has "
+                "the key; the key is not 'subevents', the name the function itself uses): chunk c holds, under 'subevents', a list of its "
+                "own whose elements are the input events start[c] .. start[c+1]-1 themselves, in order (start[0] = 0, strictly increasing, "
+                "the last chunk ends at the end of the input: the sub-events concatenate back to the input); it starts where its first "
+                "sub-event starts, carries that event's value of the key, and every sub-event's value equals it (A-JV: == on opaque JSON "
+                "values); its duration is P[start[c+1]] - P[start[c]] where P is the ghost list of prefix sums of the input durations "
+                "(P[0] = 0, P[i+1] = P[i] + events[i].duration), i.e. the durations add up; chunks, their data tables and their "
+                "sub-event lists are fresh and pairwise distinct; no input event is modified.  Which adjacent events are merged "
+                "(the pulsetime test) is deliberately not part of the contract - the property does not speak about it.  "
+                "merge_events_by_keys (a dict keyed by tuples of variable length) is outside the verified subset: its clauses are "
+                "evaluated at run time on the real function over random small inputs (bounded, not counted as proved).",
 )
 F1 = "/repo/aw_transform/sort_by.py"
 F2 = "/repo/aw_transform/filter_keyvals.py"
+F3 = "/repo/aw_transform/chunk_events_by_key.py"
 MUTANTS = [
     (F1, "return sorted(events, key=lambda e: e.duration, reverse=True)", "return sorted(events, key=lambda e: e.duration)", True),
     (F1, "return sorted(events, key=lambda e: e.timestamp)", "events.sort(key=lambda e: e.timestamp)\n    return events", True),
     (F1, "return events[:count]", "return events[:count + 1]", True),
     (F2, "return [e for e in events if not predicate(e)]", "return [e for e in events if predicate(e)]", True),
     (F2, "return key in event.data and event.data[key] in vals", "return key in event.data or event.data[key] in vals", True),
+    (F3, "            chunked_event.duration += event.duration\n", "", True),                         # durations no longer add up
+    (F3, "            and chunked_events[-1].data[key] == event.data[key]\n", "", True),               # runs no longer share the key's value
+    (F3, '            chunked_event.data["subevents"].append(event)\n', "", True),                      # sub-events lost
+    (F3, '"subevents": [event]}', '"subevents": [event, event]}', True),                                # sub-event counted twice
+    (F3, "timestamp=event.timestamp, duration=event.duration, data=data", "timestamp=event.timestamp, duration=timedelta(0), data=data", True),
+    (F3, "            chunked_event = chunked_events[-1]\n", "            chunked_event = chunked_events[0]\n", True),   # merged into the first chunk
+    (F3, "            chunked_event.duration += event.duration\n", "            chunked_event.duration += event.duration\n            event.duration = chunked_event.duration\n", True),  # input modified
+    (F3, "timediff < timedelta(seconds=pulsetime)", "timediff <= timedelta(seconds=pulsetime)", False),   # which adjacent events merge is not part of the property
+    (F3, "events[-1].timestamp + events[-1].duration", "chunked_events[-1].timestamp + chunked_events[-1].duration", False),
 ]
